@@ -497,6 +497,13 @@ impl ResolvedInputRegion {
     }
 }
 
+#[cfg(any(kani, desert_verif_hooks))]
+impl InputRegion {
+    pub(crate) fn verif_parts(&self) -> (usize, usize, usize) {
+        (self.start, self.pos, self.end)
+    }
+}
+
 /// Verification-only access to the crate-private region operations (see /verif/DESIGN.md §5).
 #[cfg(any(kani, desert_verif_hooks))]
 impl<'a> DeserializationContext<'a> {
